@@ -31,6 +31,7 @@ def run(res, tier, build_ok):
     iscsi = sys.modules["iscsi"]
     dev = ISCSIDevice("iscsi://127.0.0.1/iqn.x:y/0", "iqn.init")
     reqs = []
+    it_count = [0]
 
     def iscsi_observe(cmd):
         del iscsi.LOG[:]
@@ -112,6 +113,23 @@ def run(res, tier, build_ok):
                                       "%s: the CDB announces %d bytes of data-in (%s at byte %d), the data-in buffer has %d bytes" % (
                                           c["cls"], announced, f["name"], f["byte"], len(cmd.datain)),
                                       {"class": c["cls"], "args": shown, "cdb": bytes(cmd.cdb).hex(), "datain_len": len(cmd.datain)})
+            # decoding must not resize the buffer the command carries (it may be executed again: the CDB still announces it)
+            if hasattr(cmd, "unmarshall_datain") and len(cmd.datain) and len(cmd.datain) <= 4096 and it_count[0] % 5 == 0:
+                n0 = len(cmd.datain)
+                for fill in (0x00, 0xFF, None):
+                    cmd.datain[:] = bytes([fill]) * n0 if fill is not None else bytes(rng.getrandbits(8) for _ in range(n0))
+                    try:
+                        cmd.unmarshall()
+                    except Exception:
+                        pass
+                    res.count("buffer length after decoding")
+                    if len(cmd.datain) != n0:
+                        res.violation("cls=%s datain resized by decoding" % c["cls"],
+                                      "%s: after decoding, the data-in buffer of the command has %d bytes; the CDB announces %d" % (c["cls"], len(cmd.datain), n0),
+                                      {"class": c["cls"], "args": shown, "fill": fill})
+                        break
+                cmd.datain[:] = bytes(len(cmd.datain))
+            it_count[0] += 1
             envd = {k: (v if isinstance(v, (int, bytes, bytearray, type(None))) else None) for k, v in kw.items()}
             for comp in c.get("computed", []):
                 envd[comp] = bytes(cmd.dataout)
